@@ -760,6 +760,7 @@ def canary_handle_error(u: U):
 
     class _R:
         writer = _W()
+        _payload_writer = writer
         remote = "x"
         headers = {}
 
@@ -774,7 +775,8 @@ def canary_handle_error(u: U):
         def force_close(self):
             pass
 
-    h = u.obj("RequestHandler", {"_loop": _Loop()}, {"log_exception": lambda self, *a, **k: None}, shared=False)
+    h = u.obj("RequestHandler", {"_loop": _Loop()}, {"log_exception": lambda self, *a, **k: None}, shared=False,
+              real=(MOD, "RequestHandler"))
     f = u.load(MOD, "RequestHandler.handle_error", globals={"Response": _Resp})
     out = u.call(f, h, _R(), 500, Boom("x"))
     u.check("C05.canary", out.ok, "false")
